@@ -71,7 +71,11 @@ type Write struct {
 
 type Allow struct {
 	Var, Kind, Detail, Why string
-	used                   int
+	// optional condition `needs=<var>:<kind>:<detail>`: the line only covers a
+	// site when the same function also contains such a site (e.g. the mutex
+	// Lock that justifies a store)
+	NeedVar, NeedKind, NeedDetail string
+	used                          int
 }
 
 func main() {
@@ -253,7 +257,7 @@ func main() {
 	for _, w := range writes {
 		ok := false
 		for i := range allows {
-			if allows[i].matches(w) {
+			if allows[i].matches(w) && allows[i].needsOK(w, writes) {
 				allows[i].used++
 				ok = true
 			}
@@ -620,17 +624,40 @@ func readAllow(path string) []Allow {
 		if len(fs) == 0 {
 			continue
 		}
+		a := Allow{Why: why}
+		if len(fs) == 4 && strings.HasPrefix(fs[3], "needs=") {
+			nd := strings.Split(strings.TrimPrefix(fs[3], "needs="), ":")
+			if len(nd) != 3 {
+				fmt.Fprintf(os.Stderr, "allow list line %d: needs=<var>:<kind>:<detail>\n", ln+1)
+				os.Exit(2)
+			}
+			a.NeedVar, a.NeedKind, a.NeedDetail = nd[0], nd[1], nd[2]
+			fs = fs[:3]
+		}
 		if len(fs) != 3 || why == "" {
-			fmt.Fprintf(os.Stderr, "allow list line %d: want `<var> <kind> <detail|*>  # justification`\n", ln+1)
+			fmt.Fprintf(os.Stderr, "allow list line %d: want `<var> <kind> <detail|*> [needs=<var>:<kind>:<detail>]  # justification`\n", ln+1)
 			os.Exit(2)
 		}
-		out = append(out, Allow{Var: fs[0], Kind: fs[1], Detail: fs[2], Why: why})
+		a.Var, a.Kind, a.Detail = fs[0], fs[1], fs[2]
+		out = append(out, a)
 	}
 	return out
 }
 
 func (a *Allow) matches(w Write) bool {
 	return a.Var == w.Var && a.Kind == w.Kind && (a.Detail == "*" || a.Detail == w.Detail)
+}
+
+func (a *Allow) needsOK(w Write, all []Write) bool {
+	if a.NeedVar == "" {
+		return true
+	}
+	for _, o := range all {
+		if o.File == w.File && o.Func == w.Func && o.Var == a.NeedVar && o.Kind == a.NeedKind && o.Detail == a.NeedDetail {
+			return true
+		}
+	}
+	return false
 }
 
 // ------------------------------------------------------------------ Coq
@@ -655,14 +682,14 @@ func writeCoq(path string, globals []string, writes []Write, allows []Allow) {
 		if i > 0 {
 			sb.WriteString(";\n")
 		}
-		fmt.Fprintf(&sb, "  GW %s %d %s %s %s", coqStr(w.File), w.Line, coqStr(w.Var), coqStr(w.Kind), coqStr(w.Detail))
+		fmt.Fprintf(&sb, "  GW %s %d %s %s %s %s", coqStr(w.File), w.Line, coqStr(w.Var), coqStr(w.Kind), coqStr(w.Detail), coqStr(w.Func))
 	}
 	sb.WriteString("\n].\n\nDefinition allowed : list gallow := [\n")
 	for i, a := range allows {
 		if i > 0 {
 			sb.WriteString(";\n")
 		}
-		fmt.Fprintf(&sb, "  GA %s %s %s", coqStr(a.Var), coqStr(a.Kind), coqStr(a.Detail))
+		fmt.Fprintf(&sb, "  GA %s %s %s %s %s %s", coqStr(a.Var), coqStr(a.Kind), coqStr(a.Detail), coqStr(a.NeedVar), coqStr(a.NeedKind), coqStr(a.NeedDetail))
 	}
 	sb.WriteString("\n].\n")
 	old, _ := os.ReadFile(path)
